@@ -86,7 +86,7 @@ def frag_bounds(f):
         return (min(xs), min(ys)), (max(xs), max(ys))
     if k == 'CT':
         x, y = f['cell']
-        return (x * 40, y * 80), ((x + text_cols(f['text']) + 1) * 40, (y + 1) * 80)
+        return (x * 40, y * 80), ((x + max(text_cols(f['text']), 1)) * 40, (y + 1) * 80)      # the cells the text occupies (the property's 'lies inside')
     raise ValueError(k)
 
 def contains(outer, inner):
